@@ -143,21 +143,20 @@ def r1_one_scope_function(ctx):
       owner = defuse.norm(inl0.inline(f, it.value)) if isinstance(it, ast.Attribute) else None
       ok = args[0] == names[-1] and owner is not None and args[1] == f'{owner}.tensors'
     ctx.check(R, ok, d, f, d, 'the scope must be built from the operator being visited and the tensors of its own subgraph')
-  if len(builders) == 1:
-    ctx.check(R, True, None or list(builders.values())[0].node, list(builders.values())[0], 'single shared scope builder', '')
-  else:
-    sums = {fq: string_builder_summary(b) for fq, b in builders.items()}
-    fqs = sorted(sums)
-    ref = sums[fqs[0]]
-    for fq in fqs[1:]:
-      b = builders[fq]
-      ctx.check(R, sums[fq] == ref, b.node, b, f'{fq} vs {fqs[0]}',
-                f'scope builders differ: {fq} builds {sums[fq]} but {fqs[0]} builds {ref}; a regex can then select an op in one phase only')
-    ctx.sample(R, {'builders': fqs, 'summary': {k: (v if not isinstance(v, list) else [str(x) for x in v]) for k, v in ref.items()}})
+  # what every scope builder computes, as a table (independent of how it is written): the names of the operator's
+  # existing OUTPUT tensors, each followed by ';' - so a virtual OUTPUT operator (no outputs) has the empty scope and a
+  # rule whose regex names a tensor selects the operator PRODUCING it
+  it = tables.interp(ctx)
+  tensors = [Obj('x:TensorT', {'name': f't{k}'.encode()}) for k in range(6)]
+  rows = [([0], [1], 't0;'), ([2], [0, 1], 't2;'), ([2, 3], [0], 't2;t3;'), ([-1, 4], [1], 't4;'), ([], [5], ''), ([5], [], 't5;')]
   for fq, b in builders.items():
-    s = string_builder_summary(b)
-    ctx.check(R, s['returns_accumulator'] and s['guard'] is not None and '-1' in s['guard'] and 'outputs' in s['iter'], b.node, b, f'{fq} shape',
-              'the scope must be built from every existing output tensor name of the op')
+    for outs, ins, want in rows:
+      op = Obj('x:OperatorT', {'outputs': list(outs), 'inputs': list(ins)})
+      args = ([Obj('x:self', {})] if b.cls is not None else []) + [op, tensors]
+      o = it.outcomes(b, args)
+      ok = len(o) == 1 and o[0].kind == 'return' and o[0].value == want
+      ctx.check(R, ok, b.node, b, f'{b.name}: outputs {outs}, inputs {ins} -> {[x.short() for x in o]}',
+                f'the scope of an operator with outputs {outs} must be {want!r} (its output tensor names, each followed by ";")')
 
 
 def selection_loops(ctx):
